@@ -237,7 +237,15 @@ fn exec(t: &[&str]) -> String {
         ["biz", z] => {
             let b = BigInt::from_str(z).expect("bigint");
             let cbor = g(|| hex::encode(b.to_bytes()));
-            let rt = g(|| BigInt::from_bytes(b.to_bytes()).map(|x| x.to_str()).unwrap_or("err".into()));
+            let mut rt = g(|| BigInt::from_bytes(b.to_bytes()).map(|x| x.to_str()).unwrap_or("err".into()));
+            // the same integer inside PlutusData: same bytes, same value back
+            let pd = g(|| {
+                let d = PlutusData::new_integer(&b);
+                let bytes = d.to_bytes();
+                if bytes != b.to_bytes() { return "pd-bytes-differ".into(); }
+                PlutusData::from_bytes(bytes).ok().and_then(|x| x.as_integer()).map(|x| x.to_str()).unwrap_or("err".into())
+            });
+            if pd != rt && rt != "panic" { rt = format!("plutus-data:{}", pd); }
             let s = b.to_str();
             let srt = BigInt::from_str(&s).map(|x| x.to_str()).unwrap_or("err".into());
             format!("ok {} {} {} {} {} {} {}", cbor, rt, hex_or_dash(s.as_bytes()), srt,
@@ -665,6 +673,31 @@ fn gen(dir: &str) {
         emit(&mut out, format!("biz {}{}", if r.chance(1, 2) { "-" } else { "" }, z));
         // values whose tag-3 magnitude (-z-1) crosses a byte-length / chunk boundary: -(256^k)
         if r.chance(1, 5) { let k = *r.pick(&[8usize, 9, 63, 64, 65, 128, 129]); let mut m = vec![0u8; k + 1]; m[0] = 1; emit(&mut out, format!("biz -{}", num_str(&m))); emit(&mut out, format!("biz {}", num_str(&m))); }
+    }
+    // digit-structured values: k = 1..5 u64 digits (least significant first), each digit from {0, 1, 2, 2^63, 2^64-1} (full product for
+    // k <= 3) or one of those / random (k = 4, 5), both signs, and the +-1 neighbours of a part of them
+    {
+        let fixed: [u64; 5] = [0, 1, 2, 1u64 << 63, u64::MAX];
+        let to_dec = |digits: &[u64]| -> String { let mut be: Vec<u8> = Vec::new(); for d in digits.iter().rev() { be.extend_from_slice(&d.to_be_bytes()); } num_str(&be) };
+        let mut sets: Vec<Vec<u64>> = Vec::new();
+        for k in 1..=3usize {
+            let n = 5usize.pow(k as u32);
+            for idx in 0..n { let mut v = Vec::new(); let mut x = idx; for _ in 0..k { v.push(fixed[x % 5]); x /= 5; } sets.push(v); }
+        }
+        for k in 4..=5usize { for _ in 0..40 * scale { sets.push((0..k).map(|_| if r.chance(1, 6) { r.next() } else { *r.pick(&fixed) }).collect()); } }
+        for digits in sets.iter() {
+            let z = to_dec(digits);
+            emit(&mut out, format!("biz {}", z));
+            if z != "0" { emit(&mut out, format!("biz -{}", z)); }
+            if r.chance(1, 4) {
+                // neighbours: magnitude + 1 and - 1 (on the lowest digit, no carry when it is not at an extreme)
+                let mut up = digits.clone(); let mut dn = digits.clone();
+                if up[0] != u64::MAX { up[0] += 1; for sgn in ["", "-"] { emit(&mut out, format!("biz {}{}", sgn, to_dec(&up))); } }
+                if dn[0] != 0 { dn[0] -= 1; let d = to_dec(&dn); for sgn in ["", "-"] { if d != "0" || sgn == "" { emit(&mut out, format!("biz {}{}", sgn, d)); } } }
+            }
+            // the text entry point and the decoder see the same values
+            if r.chance(1, 6) { emit(&mut out, format!("bistr {}", hex_or_dash(format!("-{}", z).as_bytes()))); emit(&mut out, format!("int big -{}", z)); }
+        }
     }
     for _ in 0..400 * scale { let b = bigint_cbor(&mut r); emit(&mut out, format!("bibytes {}", hex_or_dash(&b))); }
     for _ in 0..300 * scale { let s = dec_text(&mut r, true, true); emit(&mut out, format!("bistr {}", hex_or_dash(s.as_bytes()))); }
